@@ -51,6 +51,18 @@ CHECKS = {
                 'cluster executions under the full fault matrix, plus tick-progress assertion',
                 text='held on K executions: no traceback reached a last-resort guard, no non-RPCError left an '
                      'XML-RPC method, no proxy thread died, tick counters kept advancing', ref='8/C16', note=TRUST_L3),
+    'C18': dict(engine=ENGINE_L1, technique='runtime monitoring: reference-model monitor on the real Parser (lxml+XSD '
+                'and ElementTree modes), rules classes and SupvisorsOptions with generated documents and option sets',
+                text='held on every generated lookup and option set: field-by-field equality with a reference '
+                     'resolver written from the documentation; termination = completion of every lookup (cyclic and '
+                     'deep model chains included), exceptions are violations', ref='8/C18',
+                note='trusted base: the reference resolver of monitors/c18_rules.py (documentation reading stated '
+                     'in its ASSUMPTIONS)'),
+    'C20': dict(engine=ENGINE_L1, technique='runtime monitoring: structural invariant walked after every push of '
+                'generated sample streams into the real statistics compilers, with a shadow period gate',
+                text='held after every push: bounded, aligned, period-gated, CPU and I/O ranges, stopped process '
+                     'dropped', ref='8/C20', note='trusted base: the stream generator (non-decreasing jiffies, '
+                                                  'constant core count per identifier)'),
 }
 
 
